@@ -40,6 +40,13 @@ T_CloseNoticed(o) ==
 DialEnc(scheme) == IF scheme = "wss" THEN "tls" ELSE "none"
 T_EncryptionAgrees(o) ==
   \A i \in TIdx(o) : (o[i].op = "attr" /\ o[i].side \in {"ws", "wss"}) => o[i].res = "cli:" \o DialEnc(o[i].side) \o ",srv:" \o DialEnc(o[i].side)
+(* an end that is asked to apply an encryption (the confirmed option of a negotiation) either has *)
+(* it in force when it reports success, or refuses and stays as it was:                          *)
+(* setenc(side = "ws" | "wss", res = "<end>:<asked>:<ok|err>:<Encryption() afterwards>")         *)
+T_SetEncApplied(o) ==
+  \A i \in TIdx(o) : (o[i].op = "setenc" /\ o[i].side \in {"ws", "wss"}) =>
+     o[i].res \in {x \o ":" \o e \o ":ok:" \o e : x \in {"cli", "srv"}, e \in {"none", "tls"}}
+                \cup {x \o ":" \o e \o ":err:" \o DialEnc(o[i].side) : x \in {"cli", "srv"}, e \in {"none", "tls"}}
 (* closing a websocket transport ends the TCP connection under it, not only the websocket conversation *)
 T_SocketReleased(o) == \A i \in TIdx(o) : (o[i].op = "attr" /\ o[i].side = "wsclose") => o[i].res = "closed"
 =============================================================================
